@@ -254,7 +254,19 @@ def removal_is_exhaustive(ctx):
 
 # ---------------------------------------------------------------------------------------- applicable set
 def applicable_set_from_final_candidates(ctx):
-    """The set of applicable code objects the table records per key is built from the final candidate list."""
+    """The set of applicable code objects the table records per key is that of the final candidates."""
+    from . import mroexec
+    from .common import run_fallback
+
+    n0 = len(ctx.obs)
+    try:
+        mroexec.law(ctx, "applicable-set")
+    except AnalysisError as e:
+        del ctx.obs[n0:]
+        run_fallback(ctx, _applicable_set_shape, e, "candidate ranking")
+
+
+def _applicable_set_shape(ctx):
     multi = A.multimap(ctx.repo)
     n = 0
     for m in multi.methods.values():
